@@ -75,7 +75,7 @@ STDLIB = BUILTINS | {datetime.datetime, datetime.date, datetime.timedelta, datet
 
 MOD = "c17_cat_mod"
 SRC = '''
-import collections, collections.abc, dataclasses, datetime, decimal, enum, fractions, pathlib, typing, uuid, functools
+import abc, collections, collections.abc, dataclasses, datetime, decimal, enum, fractions, pathlib, typing, uuid, functools
 @dataclasses.dataclass
 class DC:
     a: int
@@ -138,6 +138,17 @@ class WithProps:
     def c(self): return 2
     def m(self): return 3
     attr = 5
+    # instances of *subclasses* of property / cached_property are properties (isinstance is what the runtime asks)
+    @abc.abstractproperty
+    def ap(self): return 4
+    class doc_property(property):
+        pass
+    @doc_property
+    def dp(self): return 5
+    class lazy(functools.cached_property):
+        pass
+    @lazy
+    def lz(self): return 6
 def func(a: int, b: str = "x", *c: float, d: bool = True, **e: bytes) -> int: ...
 class NTSub(NT):
     def extra(self): return 1
@@ -550,6 +561,9 @@ def check_special(col):
     for name, obj, pred, want in [
         ("property", W.__dict__["p"], "isproperty", True), ("cached_property", W.__dict__["c"], "isproperty", True),
         ("function", W.__dict__["m"], "isproperty", False), ("int attr", 5, "isproperty", False),
+        ("abstractproperty", W.__dict__["ap"], "isproperty", True), ("property subclass", W.__dict__["dp"], "isproperty", True),
+        ("cached_property subclass", W.__dict__["lz"], "isproperty", True),
+        ("property subclass", W.__dict__["dp"], "isdescriptor", True), ("property subclass", W.__dict__["dp"], "issimpleattribute", False),
         ("property", W.__dict__["p"], "isdescriptor", True), ("function", W.__dict__["m"], "isdescriptor", True), ("int", 5, "isdescriptor", False),
         ("int attr", 5, "issimpleattribute", True), ("function", W.__dict__["m"], "issimpleattribute", False), ("class", int, "issimpleattribute", False),
         ("property", W.__dict__["p"], "issimpleattribute", False),
